@@ -65,7 +65,12 @@ class Prop(PropBase):
                    "seed": rng.randrange(1 << 30)}
         for call in ("stft", "istft", "time_shift", "freq_shift", "coh", "to_intensity", "fast_len", "snippet_f", "ufunc", "tslice"):
             yield {"op": "one", "cls": "BasebandSignal", "call": call, "layout": "contig", "seed": rng.randrange(1 << 30),
-                   "long": rng.choice([65538, 70001, 131072])}
+                   "long": rng.choice([98304, 70001, 131072])}        # (well past 2^16 samples also after division into segments)
+        # flagged (non-finite) samples and last-axis-major buffers through every operation of the baseband classes: "cleaning" or
+        # working in place must not happen in the caller's buffer
+        for call in OPS:
+            for cls, layout in (("BasebandSignal", "nonfinite"), ("DualPolarizationSignal", "lastmajor"), ("DualPolarizationSignal", "nonfinite")):
+                yield {"op": "one", "cls": cls, "call": call, "layout": layout, "seed": rng.randrange(1 << 30)}
         for _ in range(60 if quick else 1500):
             yield {"op": "history", "cls": rng.choice(sigs.CLASSES[1:]),
                    "calls": [rng.choice(OPS) for _ in range(rng.randint(2, 10))],
